@@ -111,7 +111,10 @@ var (
 	fExtra    = flag.String("extra", "", "extra flags passed to the worker binary")
 	fFirst    = flag.Uint64("first-seed", 0, "debugging: use this as the first run seed instead of deriving it from VERIF_SEED")
 	fOnlyKey  = flag.String("only", "", "debugging: only handle violations whose key contains this text")
+	fSelftest = flag.Int("selftest", 0, "determinism self-test: run this many seeds three times (GOMAXPROCS 1, 4, 16, separate processes) and compare the event-log fingerprints")
 )
+
+var gomaxprocs = "2"
 
 func splitmix(x uint64) uint64 {
 	x += 0x9E3779B97F4A7C15
@@ -142,7 +145,7 @@ func runWorker(a, b uint64, extra []string) ([]Result, error) {
 			"-bsim.seeds", fmt.Sprintf("%d:%d", a, b), "-bsim.out", f.Name()}
 		args = append(args, extra...)
 		cmd := exec.Command(*fBin, args...)
-		cmd.Env = append(os.Environ(), "GOMAXPROCS=2")
+		cmd.Env = append(os.Environ(), "GOMAXPROCS="+gomaxprocs)
 		cmd.Dir = tmpDir()
 		var stderr bytes.Buffer
 		cmd.Stderr = &stderr
@@ -497,6 +500,10 @@ func main() {
 		extra = strings.Fields(*fExtra)
 	}
 
+	if *fSelftest > 0 {
+		selftest(base, extra)
+		return
+	}
 	var mu sync.Mutex
 	var results []Result
 	var workerErr error
@@ -735,6 +742,59 @@ func main() {
 		fmt.Println(l)
 	}
 	os.Exit(exit)
+}
+
+// selftest proves determinism on a sample: every seed is executed in three separate processes under
+// different GOMAXPROCS; fingerprint (hash of the full task@point event log), step count and violation
+// count must agree.
+func selftest(base uint64, extra []string) {
+	n := *fSelftest
+	type sig struct {
+		fp    string
+		steps int
+		viol  int
+	}
+	runs := map[string]map[uint64]sig{}
+	for _, g := range []string{"1", "4", "16"} {
+		gomaxprocs = g
+		var mu sync.Mutex
+		m := map[uint64]sig{}
+		var wg sync.WaitGroup
+		chunk := (n + *fWorkers - 1) / *fWorkers
+		for a := 0; a < n; a += chunk {
+			wg.Add(1)
+			go func(a int) {
+				defer wg.Done()
+				rs, err := runWorker(base+uint64(a), base+uint64(min(a+chunk, n)), extra)
+				if err != nil {
+					fail2("selftest worker: %v", err)
+				}
+				mu.Lock()
+				for _, r := range rs {
+					m[r.Spec.Seed] = sig{r.Fingerprint, r.Steps, len(r.Violations)}
+				}
+				mu.Unlock()
+			}(a)
+		}
+		wg.Wait()
+		runs[g] = m
+	}
+	bad := 0
+	for seed, a := range runs["1"] {
+		for _, g := range []string{"4", "16"} {
+			if b := runs[g][seed]; a != b {
+				bad++
+				if bad <= 10 {
+					fmt.Printf("selftest: property=%s seed=%d differs: GOMAXPROCS=1 %+v vs GOMAXPROCS=%s %+v\n", *fProp, seed, a, g, b)
+				}
+			}
+		}
+	}
+	fmt.Printf("selftest: property=%s seeds=%d x 3 processes (GOMAXPROCS 1/4/16): %d divergent\n", *fProp, len(runs["1"]), bad)
+	if bad > 0 || len(runs["1"]) == 0 {
+		os.Exit(2)
+	}
+	os.Exit(0)
 }
 
 func sanitize(s string) string {
